@@ -4,6 +4,31 @@
    (signatures, calls, requests) but none of its functions that describe what the code does. *)
 From SPV Require Export Base.Str Model.Front.
 
+(* ---------- the annotation inferred for an un-annotated parameter: the builtin type of its default (a bool default is a
+   bool option, not an int one), tuples element-wise; nothing is demanded for other defaults ---------- *)
+Fixpoint spec_ity (d : dkind) : ity :=
+  match d with
+  | DBool => IB TBool | DInt => IB TInt | DFloat => IB TFloat | DStr => IB TStr
+  | DTuple l => ITuple (map spec_ity l)
+  | DOther => IFail
+  end.
+Definition bty_eqb (a b : bty) : bool :=
+  match a, b with TInt, TInt | TStr, TStr | TFloat, TFloat | TBool, TBool => true | _, _ => false end.
+Fixpoint ity_eqb (a b : ity) : bool :=
+  match a, b with
+  | IB x, IB y => bty_eqb x y
+  | ITuple l1, ITuple l2 =>
+      (fix go (l1 l2 : list ity) : bool :=
+         match l1, l2 with [], [] => true | x :: r1, y :: r2 => ity_eqb x y && go r1 r2 | _, _ => false end) l1 l2
+  | IFail, IFail => true
+  | _, _ => false
+  end.
+Definition spec_inferred (untyped : list (string * dkind)) (observed : list (string * ity)) : bool :=
+  forallb (fun o => match find (fun nd => String.eqb (fst nd) (fst o)) untyped with
+                    | Some nd => ity_eqb (snd o) (spec_ity (snd nd))
+                    | None => false
+                    end) observed.
+
 Section V.
   Variable V : Type.
   Variable veqb : V -> V -> bool.
